@@ -307,30 +307,16 @@ def check_effects(ctx, lib, cfgname="default", prefix=""):
         ctx.check(ok, R("clone-is-same-triple"), "expression-new", "Expression::new stores exactly (text, tree, runtime) as given", en.span)
     rc = ctx.fn("runtime::Runtime::compile", cfg=cfgname, rule=R("clone-is-same-triple"))
     if rc is not None:
-        clos = lib.closures_of("runtime::Runtime::compile")
-        ok = False
-        for c in clos:
-            for bb, t in c.calls():
-                if t["callee"] == "Expression::<'a>::new":
-                    o = Origins(c, lib)
-                    a = [o.of_operand(x) for x in t["args"]]
-                    # the tree is the closure's own argument; text and runtime are the captured
-                    # expression parameter and `self` of Runtime::compile (resolved through the
-                    # closure aggregate in the parent body, not by variable name)
-                    ok = all(x[0] == "param" and x[1] == 2 for x in a[1])
-                    caps = closure_capture_origins(lib, rc, c.deff)
-
-                    def captured(terms):
-                        out = set()
-                        for x in terms:
-                            if x[0] == "field" and x[1] == ("closure_env",) and caps is not None and str(x[2]).isdigit() and int(x[2]) < len(caps):
-                                out |= set(caps[int(x[2])])
-                            else:
-                                out.add(("?",))
-                        return out
-                    ok = ok and captured(a[0]) == {("param", 2)} and captured(a[2]) == {("param", 1)}
+        # spelling-independent (map closure, `?`, match): one Expression::new(expression, <what parse(expression) produced>, self)
+        ro = Origins(rc, lib)
+        news = [t for _, t in rc.calls() if t["callee"] == "Expression::<'a>::new"]
+        ok = len(news) == 1
+        if ok:
+            a = [ro.of_operand(x) for x in news[0]["args"]]
+            ok = a[0] == {("param", 2)} and a[2] == {("param", 1)} and bool(a[1]) and \
+                all(x[0] == "call" and x[1] == "parser::parse" and set(x[2][0]) == {("param", 2)} for x in a[1])
         pc = [t for bb, t in rc.calls() if t["callee"] == "parser::parse"]
-        ok = ok and len(pc) == 1 and Origins(rc, lib).of_operand(pc[0]["args"][0]) == {("param", 2)}
+        ok = ok and len(pc) == 1 and ro.of_operand(pc[0]["args"][0]) == {("param", 2)}
         ctx.check(ok, R("clone-is-same-triple"), "runtime-compile", "Runtime::compile = parse(expression).map(|ast| Expression::new(expression, ast, self))", rc.span)
     return counts
 
